@@ -1,0 +1,30 @@
+//go:build verif
+
+package txwatcher
+
+import "runtime"
+
+// VerifDeliverHeight hands a block height to the observation loop of swapId
+// exactly as the dispatcher in StartWatchingTxs does (obs.blockChan <- height),
+// but synchronously, so that a verification harness can drive the real
+// observationLoop without the 500 ms poll / 100 ms dispatcher sleeps.
+// It returns once the loop has taken the height, or false if there is no
+// (longer a) loop registered for swapId. Delivering height 0 is a barrier: the
+// loop ignores it (0 <= lastHeight) but can only take it when it is back at
+// its select, i.e. when the previous height has been processed completely.
+func (s *BlockchainRpcTxWatcher) VerifDeliverHeight(swapId string, height uint32) bool {
+	for {
+		s.Lock()
+		info, ok := s.observerLoopList[swapId]
+		s.Unlock()
+		if !ok {
+			return false
+		}
+		select {
+		case info.blockChan <- height:
+			return true
+		default:
+			runtime.Gosched()
+		}
+	}
+}
